@@ -111,3 +111,240 @@ def merge_transforms(ctx):
             from fjvc.interp import obj_class
             flat = not obj_class(merged.base_dist).issubclass_of(acls) if isinstance(merged.base_dist, Obj) else True
             ctx.oblige(f"C03/merge_transforms[depth={depth}]/post/base_not_transformed{which}", flat, [], props, kind="struct", fn=fnq)
+
+
+# ======================================================================================
+# C05: named families.  Standard bases: sum over the event of the textbook standard log-density (T3 logpdf entries /
+# the hand-written Gumbel formula); location-scale families: constructor plumbing, accessors, and the full density
+# obtained by running the real AbstractTransformed._log_prob on the real Affine / Scale / Chain[Affine, Exp] objects.
+from fjvc.lib import LOGPDF, LOGPDF_T, TypeMarker  # noqa: E402
+from fjvc.values import SumT, UF  # noqa: E402
+
+exp_, log_ = UF["exp"], UF["log"]
+SHAPE = ("event",)
+
+
+def ev(name):
+    return SV(z3.Real(name), elem=True, tags={"shape": SHAPE})
+
+
+class Reparam:
+    """contract of wrappers.BijectionReparam(arr, SoftPlus()) (proved in C11): stores the preimage, unwrap() gives arr back;
+    the constructor requires arr in the codomain of the bijection (arr > 0), otherwise eqx.error_if raises"""
+
+    def __init__(self, arr, bijection, invert_on_init=True):
+        it = ctx_interp[0]
+        e = lift(arr)
+        if not it.truth(SV(e > 0)):
+            raise PyRaise("EquinoxRuntimeError", "Non-finite value(s) introduced when reparameterizing")
+        self.value = arr
+
+
+ctx_interp = [None]
+from fjvc.interp import PyRaise  # noqa: E402
+
+
+def c05_env(it):
+    ctx_interp[0] = it
+    it.lib.overrides["jaxtyping.ArrayLike"] = TypeMarker("ArrayLike", check=lambda v: True)
+    it.lib.overrides["jax.numpy.asarray"] = lambda a, *r, **k: a
+    it.lib.overrides["equinox.error_if"] = _error_if
+    unwrap = lambda v: v.value if isinstance(v, Reparam) else v  # noqa: E731
+    _uw = unwrap
+
+    class W:
+        BijectionReparam = Reparam
+        unwrap = staticmethod(_uw)
+
+    it.global_overrides["flowjax.bijections.affine"] = {"wrappers": W}
+    it.global_overrides["flowjax.bijections.chain"] = {"unwrap": lambda t: t}
+    it.global_overrides[MOD] = {"unwrap": unwrap, "BijectionReparam": Reparam}
+    return unwrap
+
+
+def _error_if(x, pred, msg):
+    it = ctx_interp[0]
+    if it.truth(pred if isinstance(pred, SV) else SV(lift(pred))):
+        raise PyRaise("EquinoxRuntimeError", msg)
+    return x
+
+
+STD = {"StandardNormal": "norm", "_StandardUniform": "uniform", "_StandardCauchy": "cauchy", "_StandardLaplace": "laplace", "_StandardExponential": "expon", "_StandardLogistic": "logistic"}
+
+
+@family("distributions/standard_bases", ["C05"])
+def standard_bases(ctx):
+    it = ctx.interp
+    c05_env(it)
+    x = ev("x")
+    props = ["C05"]
+    for cname, fam in STD.items():
+        cls = it.repo_class(f"{MOD}.{cname}")
+        o = Obj(cls, shape=SHAPE)
+        q = f"{MOD}.{cname}._log_prob"
+        p = single(it.explore(lambda: method(cls, "_log_prob")(o, x, None)), ctx, f"C05/{cname}._log_prob/struct/straight_line", props, q)
+        if p is None:
+            continue
+        v = p.value
+        ctx.oblige(f"C05/{cname}._log_prob/struct/sum_over_event", isinstance(v, SumT), [], props, kind="struct", fn=q, note="summed (not averaged) over independent dimensions")
+        if isinstance(v, SumT):
+            ctx.oblige(f"C05/{cname}._log_prob/post/standard_logpdf", v.t == LOGPDF[fam](x.e), p.cond, props, fn=q, replay=dict(kind="c05", vars={}))
+    # hand-written Gumbel: -(z + exp(-z))
+    cls = it.repo_class(f"{MOD}._StandardGumbel")
+    o = Obj(cls, shape=SHAPE)
+    q = f"{MOD}._StandardGumbel._log_prob"
+    p = single(it.explore(lambda: method(cls, "_log_prob")(o, x, None)), ctx, "C05/_StandardGumbel._log_prob/struct/straight_line", props, q)
+    if p is not None and isinstance(p.value, SumT):
+        ctx.oblige("C05/_StandardGumbel._log_prob/post/textbook", p.value.t == -(x.e + exp_(-x.e)), p.cond, props, fn=q, replay=dict(kind="c05", vars={}))
+        ctx.control("C05/_StandardGumbel._log_prob/control/sign", p.value.t == -(x.e - exp_(-x.e)), p.cond, props, fn=q)
+    else:
+        ctx.oblige("C05/_StandardGumbel._log_prob/struct/sum_over_event", False, [], props, kind="struct", fn=q)
+    # Student t: df passed to the T3 logpdf
+    cls = it.repo_class(f"{MOD}._StandardStudentT")
+    df = ev("df")
+    o = Obj(cls, shape=SHAPE, df=df)
+    q = f"{MOD}._StandardStudentT._log_prob"
+    p = single(it.explore(lambda: method(cls, "_log_prob")(o, x, None)), ctx, "C05/_StandardStudentT._log_prob/struct/straight_line", props, q)
+    if p is not None:
+        ctx.oblige("C05/_StandardStudentT._log_prob/post/standard_logpdf", isinstance(p.value, SumT) and True, [], props, kind="struct", fn=q)
+        if isinstance(p.value, SumT):
+            ctx.oblige("C05/_StandardStudentT._log_prob/post/t_logpdf_with_df", p.value.t == LOGPDF_T(x.e, df.e), p.cond, props, fn=q, replay=dict(kind="c05", vars={}))
+
+
+def _run_ctor(it, cls, *args, **kw):
+    return it.explore(lambda: cls(*args, **kw))
+
+
+@family("distributions/location_scale_families", ["C05", "C11"])
+def location_scale(ctx):
+    it = ctx.interp
+    unwrap = c05_env(it)
+    props = ["C05", "C11"]
+    x = ev("x")
+    loc, scale = ev("loc"), ev("scale")
+    tcls = it.repo_class(f"{MOD}.AbstractTransformed")
+    for cname, base_name, fam in (("Normal", "StandardNormal", "norm"), ("Cauchy", "_StandardCauchy", "cauchy"), ("Laplace", "_StandardLaplace", "laplace"), ("Logistic", "_StandardLogistic", "logistic"), ("Gumbel", "_StandardGumbel", None)):
+        cls = it.repo_class(f"{MOD}.{cname}")
+        q = f"{MOD}.{cname}"
+        paths = _run_ctor(it, cls, loc, scale)
+        rp = dict(kind="c05", cls=cname, vars=dict(loc=loc.e, scale=scale.e, x=x.e))
+        for i, p in enumerate(paths):
+            if p.outcome == "raise":
+                ctx.oblige(f"C11/{cname}.__init__/post/rejects_only_nonpositive_scale#{i}", scale.e <= 0, p.cond, props, fn=q + ".__init__", replay=rp)
+                continue
+            d = p.value
+            hyp = p.cond
+            ctx.oblige(f"C11/{cname}.__init__/post/accepts_only_positive_scale#{i}", scale.e > 0, hyp, props, fn=q + ".__init__", replay=rp)
+            from fjvc.interp import obj_class
+            ctx.oblige(f"C05/{cname}.__init__/struct/base_family#{i}", obj_class(d.base_dist).__name__ == base_name and obj_class(d.bijection).__name__ == "Affine", [], props, kind="struct", fn=q + ".__init__")
+            ctx.oblige(f"C05/{cname}.__init__/post/reproduces_loc_scale#{i}", z3.And(lift(d.loc) == loc.e, lift(d.scale) == scale.e), hyp, props, fn=q + ".__init__", replay=rp)
+            # full density through the real change-of-variables path with the real Affine methods (self unwrapped)
+            ub = Obj(obj_class(d.bijection), loc=d.bijection.loc, scale=unwrap(d.bijection.scale), shape=d.bijection.shape)
+            ud = Obj(obj_class(d), base_dist=d.base_dist, bijection=ub)
+            pl = it.explore(lambda: method(tcls, "_log_prob")(ud, x, None))
+            if len(pl) == 1 and pl[0].outcome == "return" and isinstance(pl[0].value, SumT):
+                z = (x.e - loc.e) / scale.e
+                std = LOGPDF[fam](z) if fam else -(z + exp_(-z))
+                ctx.oblige(f"C05/{cname}/post/textbook_log_density#{i}", pl[0].value.t == std - log_(scale.e), hyp + pl[0].cond, props, fn=f"{MOD}.AbstractTransformed._log_prob", replay=rp)
+                ctx.control(f"C05/{cname}/control/swapped_loc_scale#{i}", pl[0].value.t == (LOGPDF[fam]((x.e - scale.e) / loc.e) if fam else x.e) - log_(loc.e), hyp + pl[0].cond + [loc.e > 0], props, fn=q)
+            else:
+                ctx.oblige(f"C05/{cname}/struct/log_prob_is_sum#{i}", False, [], props, kind="struct", fn=q)
+    # Uniform(minval, maxval): loc = minval, scale = maxval - minval
+    cls = it.repo_class(f"{MOD}.Uniform")
+    a, b = ev("minval"), ev("maxval")
+    q = f"{MOD}.Uniform"
+    rp = dict(kind="c05", cls="Uniform", vars=dict(minval=a.e, maxval=b.e, x=x.e))
+    for i, p in enumerate(_run_ctor(it, cls, a, b)):
+        if p.outcome == "raise":
+            ctx.oblige(f"C11/Uniform.__init__/post/rejects_only_if#{i}", b.e <= a.e, p.cond, props, fn=q + ".__init__", replay=rp)
+            continue
+        d = p.value
+        ctx.oblige(f"C11/Uniform.__init__/post/accepts_only_if#{i}", b.e > a.e, p.cond, props, fn=q + ".__init__", replay=rp)
+        ctx.oblige(f"C05/Uniform.__init__/post/accessors#{i}", z3.And(lift(d.minval) == a.e, lift(d.maxval) == b.e), p.cond, props, fn=q + ".__init__", replay=rp)
+        ctx.oblige(f"C05/Uniform.__init__/post/affine_parameters#{i}", z3.And(lift(d.bijection.loc) == a.e, lift(unwrap(d.bijection.scale)) == b.e - a.e), p.cond, props, fn=q + ".__init__", replay=rp)
+    # Exponential(rate): Scale(1 / rate); rate accessor
+    cls = it.repo_class(f"{MOD}.Exponential")
+    r = ev("rate")
+    q = f"{MOD}.Exponential"
+    rp = dict(kind="c05", cls="Exponential", vars=dict(rate=r.e, x=x.e))
+    for i, p in enumerate(_run_ctor(it, cls, r)):
+        if p.outcome == "raise":
+            ctx.oblige(f"C11/Exponential.__init__/post/rejects_only_if#{i}", r.e <= 0, p.cond, props, fn=q + ".__init__", replay=rp)
+            continue
+        d = p.value
+        ctx.oblige(f"C05/Exponential.__init__/post/scale_is_inverse_rate#{i}", lift(unwrap(d.bijection.scale)) == 1 / r.e, p.cond, props, fn=q + ".__init__", replay=rp)
+        ctx.oblige(f"C05/Exponential.rate/post/accessor#{i}", lift(d.rate) == r.e, p.cond + [r.e > 0], props, fn=q + ".rate", replay=rp)
+        from fjvc.interp import obj_class
+        ub = Obj(obj_class(d.bijection), scale=unwrap(d.bijection.scale), shape=SHAPE)
+        ud = Obj(obj_class(d), base_dist=d.base_dist, bijection=ub)
+        pl = it.explore(lambda: method(tcls, "_log_prob")(ud, x, None))
+        if len(pl) == 1 and pl[0].outcome == "return" and isinstance(pl[0].value, SumT):
+            ctx.oblige(f"C05/Exponential/post/textbook_log_density#{i}", pl[0].value.t == LOGPDF["expon"](x.e * r.e) + log_(r.e), p.cond + pl[0].cond + [r.e > 0], props, fn=q, replay=rp, extra_terms=[exp_(log_(1 / r.e) + log_(r.e))])
+    # LogNormal(loc, scale) = Chain[Affine(loc, scale), Exp]
+    cls = it.repo_class(f"{MOD}.LogNormal")
+    q = f"{MOD}.LogNormal"
+    rp = dict(kind="c05", cls="LogNormal", vars=dict(loc=loc.e, scale=scale.e, x=x.e))
+    for i, p in enumerate(_run_ctor(it, cls, loc, scale)):
+        if p.outcome == "raise":
+            continue
+        d = p.value
+        from fjvc.interp import obj_class
+        bs = list(d.bijection.bijections)
+        ok = len(bs) == 2 and obj_class(bs[0]).__name__ == "Affine" and obj_class(bs[1]).__name__ == "Exp" and obj_class(d.base_dist).__name__ == "StandardNormal"
+        ctx.oblige(f"C05/LogNormal.__init__/struct/affine_then_exp#{i}", ok, [], props, kind="struct", fn=q + ".__init__")
+        if ok:
+            ua = Obj(obj_class(bs[0]), loc=bs[0].loc, scale=unwrap(bs[0].scale), shape=SHAPE)
+            uc = Obj(obj_class(d.bijection), bijections=(ua, bs[1]), shape=SHAPE, cond_shape=None)
+            ud = Obj(obj_class(d), base_dist=d.base_dist, bijection=uc)
+            pl = it.explore(lambda: method(tcls, "_log_prob")(ud, x, None))
+            if len(pl) == 1 and pl[0].outcome == "return" and isinstance(pl[0].value, SumT):
+                z = (log_(x.e) - loc.e) / scale.e
+                ctx.oblige(f"C05/LogNormal/post/textbook_log_density#{i}", pl[0].value.t == LOGPDF["norm"](z) - log_(scale.e) - log_(x.e), p.cond + pl[0].cond + [x.e > 0], props, fn=q, replay=rp)
+
+
+@family("distributions/log_prob_epilogue", ["C05", "C18", "C12", "C06"])
+def log_prob_epilogue(ctx):
+    """public log_prob = vectorised _log_prob of the UNWRAPPED distribution with NaN (and only NaN) mapped to -inf"""
+    it = ctx.interp
+    props = ["C05", "C18", "C12", "C06"]
+    fnq = f"{MOD}.AbstractDistribution.log_prob"
+    cls = it.repo_class(f"{MOD}.AbstractDistribution")
+    rec = {}
+
+    class Ext:  # an array of extended reals (may contain nan / +-inf)
+        def __init__(self, tag):
+            self.tag = tag
+
+    it.lib.overrides["jaxtyping.ArrayLike"] = TypeMarker("ArrayLike", check=lambda v: True)
+    it.lib.overrides["jax.numpy.asarray"] = lambda a, *r, **k: ("asarray", a, k.get("dtype"))
+    it.lib.overrides["jax.numpy.isnan"] = lambda a: ("isnan", a)
+    it.lib.overrides["jax.numpy.where"] = lambda c, a, b: ("where", c, a, b)
+    it.global_overrides[MOD] = {"unwrap": lambda d: ("unwrapped", d)}
+    for cname, cs in (("conditional", ("c",)), ("unconditional", None)):
+        lps = Ext("lps")
+
+        class U:  # the unwrapped distribution
+            cond_shape = cs
+
+            def _vectorize(self_, m):
+                rec["method"] = m
+                return lambda x, c: rec.__setitem__("args", (x, c)) or lps
+
+            _log_prob = "the _log_prob method"
+
+        u = U()
+        it.global_overrides[MOD]["unwrap"] = lambda d, u=u: u
+        self = Obj(cls)
+        paths = it.explore(lambda: method(cls, "log_prob")(self, "x", "cond"))
+        p = single(paths, ctx, f"C05/AbstractDistribution.log_prob[{cname}]/struct/straight_line", props, fnq)
+        if p is None:
+            continue
+        v = p.value
+        ninf = float("-inf")
+        ok = isinstance(v, tuple) and len(v) == 4 and v[0] == "where" and v[1] == ("isnan", lps) and v[2] == ninf and v[3] is lps
+        ctx.oblige(f"C05/AbstractDistribution.log_prob[{cname}]/post/only_nan_becomes_minus_inf", bool(ok), [], props, kind="struct", fn=fnq,
+                   note="result == where(isnan(lps), -inf, lps): -inf and finite values pass through unchanged, never NaN")
+        a = rec.get("args")
+        fl = it.builtins["float"]
+        okc = a is not None and a[0] == ("asarray", "x", fl) and ((a[1] == ("asarray", "cond", fl)) if cs is not None else (a[1] == "cond"))
+        ctx.oblige(f"C05/AbstractDistribution.log_prob[{cname}]/post/vectorised_log_prob_of_unwrapped_self", bool(okc) and rec.get("method") == "the _log_prob method", [], props, kind="struct", fn=fnq)
